@@ -22,7 +22,7 @@ PROPERTIES = ["SortIsOnePermutation", "RejectedChangesNothing", "NameIsKey", "Ds
               "CopiesAreFresh", "ShallowCopySharesMembers", "DeepCopyDisjoint"]
 
 
-def write_cfg(name, acts, depth, emit, keys=("a", "b"), maxobj=12, maxgrp=4, check=True, idx=None, ops=None):
+def write_cfg(name, acts, depth, emit, keys=("a", "b"), maxobj=12, maxgrp=4, check=True, idx=None, ops=None, objs=None):
     os.makedirs(os.path.join(common.WORK, "cfg"), exist_ok=True)
     path = os.path.join(common.WORK, "cfg", name + ".cfg")
     lines = ["INIT Init", "NEXT Next",
@@ -31,6 +31,7 @@ def write_cfg(name, acts, depth, emit, keys=("a", "b"), maxobj=12, maxgrp=4, che
              " Acts = {" + ",".join(f'"{a}"' for a in acts) + "}",
              " IdxUse = {" + ",".join(f'"{k}"' for k in (idx or IDX_ALL)) + "}",
              " OpsUse = {" + ",".join(f'"{k}"' for k in (ops or ["add", "sub", "mul", "div"])) + "}",
+             " ObjUse = {" + ",".join(str(k) for k in (objs or [])) + "}",
              "VIEW View", "CHECK_DEADLOCK FALSE", "CONSTRAINT SmallValues"]
     if check:
         lines += ["INVARIANT " + i for i in INVARIANTS] + ["PROPERTY " + p for p in PROPERTIES]
@@ -43,8 +44,8 @@ def write_cfg(name, acts, depth, emit, keys=("a", "b"), maxobj=12, maxgrp=4, che
     return path
 
 
-def tlc_emit(rep, label, acts, depth, simulate=None, seed=None, sim_depth=None, idx=None, ops=None):
-    cfg = write_cfg(label, acts, depth if not simulate else sim_depth, emit="states" if simulate else "transitions", check=not simulate, idx=idx, ops=ops)
+def tlc_emit(rep, label, acts, depth, simulate=None, seed=None, sim_depth=None, idx=None, ops=None, objs=None):
+    cfg = write_cfg(label, acts, depth if not simulate else sim_depth, emit="states" if simulate else "transitions", check=not simulate, idx=idx, ops=ops, objs=objs)
     res = common.run_tlc("Containers", cfg, workers=16, simulate=simulate, depth=sim_depth, seed=seed, timeout=3000)
     rep.tlc(res, label)
     recs = res.json_lines()
@@ -104,7 +105,7 @@ def init_state():
 
     def obj(kind, bufs_, n, u, dt, scalar=False):
         return {"k": kind, "c": [{"buf": b, "idx": list(range(1, n + 1))} for b in bufs_], "s": scalar, "u": U[u], "n": "", "dt": dt}
-    bufs = [ints([3, 1, 2]), ints([20, 30, 10]), ints([7, 5]), ints([9]), ints([100, 300, 200]), ints([4, 6, 5]), ints([2, 0, 1]), ints([300, 100, 200]), ints([6, 2, 4])]
+    bufs = [ints([3, 1, 2]), ints([20, 30, 10]), ints([7, 5]), ints([9]), ints([100, 300, 200]), ints([4, 6, 5]), ints([2, 0, 1]), ints([500, 700, 100]), ints([6, 2, 4])]
     heap = [obj("arr", [1], 3, "m", "f8"), obj("arr", [2], 3, "s", "f8"), obj("arr", [3], 2, "m", "f8"), obj("arr", [4], 1, "m", "f8", True),
             obj("vec", [5, 6], 3, "cm", "f8"), obj("arr", [7], 3, "", "i8"), obj("arr", [8], 3, "cm", "f8"), obj("arr", [9], 3, "m", "f4")]
     g0 = {"keys": [], "val": [], "name": "", "parent": 0}
@@ -291,6 +292,10 @@ def _run(rep, tier, seed, focus, acts_for_sim):
     recs = tlc_emit(rep, f"{focus}-bfs-depth{depth_focus}", FOCUS[focus], depth_focus, idx=idx, ops=ops)
     cap = None if tier == "thorough" else 60000
     replay_records(rep, recs, focus, f"{focus}-bfs", sample_cap=cap, seed=seed)
+    if focus == "alias":
+        # conversion - in-place update - conversion: histories of in-place operators alone, on operands in m, cm (Array and Vector) and s
+        recs = tlc_emit(rep, "alias-iop-depth3", ["iop"], 3 if tier == "quick" else 4, ops=["add", "mul"], objs=[1, 5, 7, 2])
+        replay_records(rep, recs, focus, "alias-iop", seed=seed)
     # 2. all actions together, shallow (cross-feature interactions)
     recs = tlc_emit(rep, "all-bfs-depth2", ALL_ACTS, 2)
     replay_records(rep, recs, focus, "all-bfs", sample_cap=20000 if tier == "quick" else None, seed=seed)
